@@ -37,7 +37,9 @@ def project(c, r):
 
 def gen(ctx):
     rng = ctx.rng
-    modes = [("inline", "caller"), ("spawn", "caller"), ("spawn", "internal")]
+    # "-early": the stop handle is supplied FIRST in the builder chain (every later step - default_alg, additional_alg,
+    # try_additional_alg, spawn_thread - has to carry it along)
+    modes = [("inline", "caller"), ("spawn", "caller"), ("spawn", "internal"), ("inline-early", "caller"), ("spawn-early", "caller")]
     for run, handle in modes:
         for point in ("pre", "blocked", "flood", "badmsg"):
             if point == "badmsg" and handle == "internal":
